@@ -843,7 +843,7 @@ def _canon_tree(w):
     """the Lean ScopeTree answer in the same canonical form (names de-duplicated and sorted)"""
     kind, name, gl, ch = w
     name = 'genexpr' if str(name) == 'listcomp' else str(name)
-    return [str(kind), name, sorted(set(str(g) for g in gl)), sorted(_canon_tree(c) for c in ch)]
+    return [str(kind), name, sorted(set(str(g) for g in gl) - {'__class__'}), sorted(_canon_tree(c) for c in ch)]
 
 
 class _ListCompAsGenExp(ast.NodeTransformer):
@@ -863,10 +863,12 @@ def symtable_tree(tree):
 
 
 def _strip_implicit(t):
-    """symtable artefacts that are no name loads of the program: the implicit `.0` parameter never is
-    referenced as a global; `__class__` is added as a *free* variable of methods using super()"""
+    """symtable artefacts that are no name loads of the program: wherever a function loads the name `super`
+    (even a parameter of that name: pyclbr._nest_class) symtable records an implicit use of `__class__`,
+    global when the function is not in a class; `__class__` is therefore not compared (on either side)"""
     kind, name, gl, ch = t
-    return [kind, 'top' if kind == 'module' else name, gl, sorted(_strip_implicit(c) for c in ch)]
+    return [kind, 'top' if kind == 'module' else name, [g for g in gl if g != '__class__'],
+            sorted(_strip_implicit(c) for c in ch)]
 
 
 STMT_OUTSIDE = ('Unsupported', 'Unmodelled', 'UnsupportedStmt', 'Global')
@@ -1066,10 +1068,19 @@ def search(ctx, res, broken):
     for d in res.disagreements[:300]:
         c = d.get('case')
         if isinstance(c, dict) and 'src' in c:
-            for via in ('raw', 'api'):
-                f = oracle_case(dict(c, via=via))
+            for via in ('raw', 'api') + (('scope',) if c.get('mode') == 'exec' else ()):
+                try:
+                    f = oracle_case(dict(c, via=via))
+                except RecursionError:
+                    continue
                 if f:
                     found.append(f)
+    if found:
+        return found
+    for s in HAND_SCOPE:
+        f = oracle_case({'mode': 'exec', 'via': 'scope', 'src': s})
+        if f:
+            found.append(f)
     if found:
         return found
     for m, s in HAND:
